@@ -154,11 +154,12 @@ func vbyte(v uint64, i int) byte {
 // varintLen: the length (1..10) of the varint that starts at p[o], or 0 when no byte
 // without continuation bit occurs within the first 10 bytes / before the end of p.
 func varintLen(p []byte, o int) int {
+	rem := len(p) - o // written as a difference so that views p[o:] and (p, o) give the same terms
 	for k := 0; k < 10; k++ {
-		if o < 0 || o+k >= len(p) {
+		if k >= rem {
 			return 0
 		}
-		if p[o+k] < 0x80 {
+		if byteAt(p, o+k) < 0x80 {
 			return k + 1
 		}
 	}
@@ -189,11 +190,12 @@ func varintStrict(p []byte, o int) bool {
 // varintTruncated: the input ends inside the varint (every remaining byte has the
 // continuation bit and fewer than 10 bytes remain).
 func varintTruncated(p []byte, o int) bool {
-	if o < 0 || o > len(p) || len(p)-o >= 10 {
+	rem := len(p) - o
+	if rem < 0 || rem >= 10 {
 		return false
 	}
 	for k := 0; k < 9; k++ {
-		if o+k < len(p) && p[o+k] < 0x80 {
+		if k < rem && byteAt(p, o+k) < 0x80 {
 			return false
 		}
 	}
@@ -291,3 +293,80 @@ func lenDelimTooLong(p []byte, o int) bool {
 func lemma_varint_inverse(p []byte, o int, v uint64) {}
 func lemma_zigzag_inverse(x32 int32, x64 int64)      {}
 func lemma_lendelim(p []byte, o int, l int) {}
+
+// ---- one field: key followed by a payload whose shape the wire type fixes.  This is the
+// reference wire-format parser step shared by Skip (C02), lazyproto (C13), protodump (C20).
+
+func keyNum(k uint64) int { return int(k >> 3) }
+func keyWT(k uint64) int  { return int(k & 7) }
+
+// fieldOK: a complete field (supported wire types 0, 1, 2, 5) starts at p[fs].
+func fieldOK(p []byte, fs int) bool {
+	n := varintLen(p, fs)
+	if n == 0 || fs < 0 {
+		return false
+	}
+	ps := fs + n
+	switch keyWT(varintVal(p, fs)) {
+	case 0:
+		return varintOK(p, ps)
+	case 1:
+		return ps+8 <= len(p)
+	case 2:
+		return lenDelimOK(p, ps)
+	case 5:
+		return ps+4 <= len(p)
+	}
+	return false
+}
+
+// fieldEnd: offset just behind that field.
+func fieldEnd(p []byte, fs int) int {
+	ps := fs + varintLen(p, fs)
+	switch keyWT(varintVal(p, fs)) {
+	case 0:
+		return ps + varintLen(p, ps)
+	case 1:
+		return ps + 8
+	case 2:
+		return lenDelimEnd(p, ps)
+	case 5:
+		return ps + 4
+	}
+	return ps
+}
+
+// fieldStrict: ... as a conforming writer emits it.
+func fieldStrict(p []byte, fs int) bool {
+	if !fieldOK(p, fs) || !varintStrict(p, fs) {
+		return false
+	}
+	ps := fs + varintLen(p, fs)
+	switch keyWT(varintVal(p, fs)) {
+	case 0:
+		return varintStrict(p, ps)
+	case 2:
+		return lenDelimStrict(p, ps)
+	}
+	return true
+}
+
+// fieldTruncated: the key is complete but the input ends inside the payload.
+func fieldTruncated(p []byte, fs int) bool {
+	n := varintLen(p, fs)
+	if n == 0 || fs < 0 {
+		return false
+	}
+	ps := fs + n
+	switch keyWT(varintVal(p, fs)) {
+	case 0:
+		return varintTruncated(p, ps)
+	case 1:
+		return ps+8 > len(p)
+	case 2:
+		return varintTruncated(p, ps) || lenDelimTooLong(p, ps)
+	case 5:
+		return ps+4 > len(p)
+	}
+	return false
+}
